@@ -103,7 +103,8 @@ def fromString (mem : List Nat) (len : Nat) : Res Nat :=
 /-! ## validator: `Unicode::isValid(const char* ch, usize len)` -/
 
 /-- loop state: position `p` of `ch` relative to the start, remaining `len`; `end_` is the
-    initial `ch + len`.  Reads are checked against the range `[0, end_)`. -/
+    initial `ch + len`.  Reads are checked against the range `[0, end_)`; the continuation-byte tests
+    are the generated `validBad2/3/4`. -/
 def isValidLoop (mem : List Nat) (end_ : Nat) (p len : Nat) : Res Bool :=
   if h : p < end_ then
     (rdR mem end_ p).bind fun b =>
@@ -112,15 +113,15 @@ def isValidLoop (mem : List Nat) (end_ : Nat) (p len : Nat) : Res Bool :=
       else if minLen = 4 then
         (rdR mem end_ (p + 1)).bind fun b1 => (rdR mem end_ (p + 2)).bind fun b2 =>
           (rdR mem end_ (p + 3)).bind fun b3 =>
-            if (b1 ||| (b2 <<< 8) ||| (b3 <<< 16)) &&& 0xc0c0c0 ≠ 0x808080 then .ok false
+            if validBad4 b1 b2 b3 then .ok false
             else isValidLoop mem end_ (p + 4) (len - 4)
       else if minLen = 3 then
         (rdR mem end_ (p + 1)).bind fun b1 => (rdR mem end_ (p + 2)).bind fun b2 =>
-          if (b1 ||| (b2 <<< 8)) &&& 0xc0c0 ≠ 0x8080 then .ok false
+          if validBad3 b1 b2 then .ok false
           else isValidLoop mem end_ (p + 3) (len - 3)
       else if minLen = 2 then
         (rdR mem end_ (p + 1)).bind fun b1 =>
-          if b1 &&& 0xc0 ≠ 0x80 then .ok false
+          if validBad2 b1 then .ok false
           else isValidLoop mem end_ (p + 2) (len - 2)
       else if minLen = 1 then isValidLoop mem end_ (p + 1) (len - 1)
       else .ok false
@@ -147,18 +148,19 @@ def fromHex (data : List Nat) : Res (List Nat) :=
 
 /-! ## `String::fromBase64(const String& data)` -/
 
-/-- the `switch (i & 0x3)` for the symbol value `c`; `out` is the reserved output buffer -/
+/-- the `switch (i & 0x3)` for the symbol value `c` (selector and the stored / or-ed expressions are the
+    generated `b64Phase`, `b64Set*`, `b64Or*`); `out` is the reserved output buffer -/
 def b64Switch (i c j : Nat) (out : List Nat) : Res (Nat × List Nat) :=
-  if i &&& 3 = 0 then
-    (wr out j ((c <<< 2) &&& 0xFF)).bind fun o => .ok (j, o)
-  else if i &&& 3 = 1 then
-    (rd out j).bind fun x => (wr out j (x ||| ((c >>> 4) &&& 0x3))).bind fun o =>
-      (wr o (j + 1) ((c &&& 0xF) <<< 4)).bind fun o2 => .ok (j + 1, o2)
-  else if i &&& 3 = 2 then
-    (rd out j).bind fun x => (wr out j (x ||| ((c >>> 2) &&& 0xF))).bind fun o =>
-      (wr o (j + 1) ((c &&& 0x3) <<< 6)).bind fun o2 => .ok (j + 1, o2)
+  if b64Phase i = 0 then
+    (wr out j (b64Set0 c)).bind fun o => .ok (j, o)
+  else if b64Phase i = 1 then
+    (rd out j).bind fun x => (wr out j (x ||| b64Or1 c)).bind fun o =>
+      (wr o (j + 1) (b64Set1 c)).bind fun o2 => .ok (j + 1, o2)
+  else if b64Phase i = 2 then
+    (rd out j).bind fun x => (wr out j (x ||| b64Or2 c)).bind fun o =>
+      (wr o (j + 1) (b64Set2 c)).bind fun o2 => .ok (j + 1, o2)
   else
-    (rd out j).bind fun x => (wr out j (x ||| c)).bind fun o => .ok (j + 1, o)
+    (rd out j).bind fun x => (wr out j (x ||| b64Or3 c)).bind fun o => .ok (j + 1, o)
 
 /-- the `for` loop over the remaining input bytes; `none` = `return String()` (rejected),
     `some (j, out)` = loop left by `break` or exhaustion -/
